@@ -365,17 +365,17 @@ def finish(res, checker_cmd, level='proof'):
     return rc
 
 
-def standard_prove(res, prop_file, gen_targets=None):
+def standard_prove(res, prop_file, gen_targets=None, extra=()):
     """translate (optional), then compile Props file; registers obligations on res."""
     with Lock():
         _LOCK_HELD[0] = True
         try:
-            return _standard_prove(res, prop_file, gen_targets)
+            return _standard_prove(res, prop_file, gen_targets, extra)
         finally:
             _LOCK_HELD[0] = False
 
 
-def _standard_prove(res, prop_file, gen_targets=None):
+def _standard_prove(res, prop_file, gen_targets=None, extra=()):
     if gen_targets:
         sys.path.insert(0, os.path.join(VERIF, 'translator'))
         import py2coq
@@ -386,6 +386,9 @@ def _standard_prove(res, prop_file, gen_targets=None):
             except Exception as e:  # fail closed
                 res.obligation('translate:' + tgt, False, detail='%s: %s' % (type(e).__name__, e), kind='translation')
     info = compile_props(prop_file)
+    if extra and info['ok']:
+        ok2, out2 = make(list(extra))
+        res.obligation('build:' + ','.join(extra), ok2, detail=out2[-2500:], kind='build')
     res.theorems = info['theorems']
     res.assumptions = info['assumptions']
     if info['ok']:
